@@ -107,7 +107,9 @@ func (ns Normalizers) Each(doc any) {
 		return
 	}
 	for _, n := range ns {
-		n(doc)
+		if n != nil { // a regime or addon need not have one
+			n(doc)
+		}
 	}
 }
 
